@@ -116,6 +116,9 @@ _BUILTIN_ALIAS_TYPES = tuple(
 )
 
 
+_UNION_TYPE = getattr(types, "UnionType", None)
+
+
 def get_imports_for_annotation(anno: Any) -> ImportMap:
     """Return the imports (module, name) needed for the type in the annotation"""
     imports = ImportMap()
@@ -161,7 +164,16 @@ def get_imports_for_signature(sig: inspect.Signature) -> ImportMap:
     """Return the imports (module, name) needed for all types in annotations"""
     imports = ImportMap()
     for param in sig.parameters.values():
-        param_imports = get_imports_for_annotation(param.annotation)
+        anno = param.annotation
+        if (
+            param.default is None
+            and _UNION_TYPE is not None
+            and isinstance(anno, _UNION_TYPE)
+        ):
+            # `A | B` with a None default is rendered as Optional[Union[A, B]]
+            # (see render_parameter): collect the imports of that spelling
+            anno = Optional[anno]
+        param_imports = get_imports_for_annotation(anno)
         if not _is_optional(param.annotation) and param.default is None:
             imports["typing"].add("Optional")
         imports.merge(param_imports)
